@@ -17,14 +17,16 @@ import (
 	"pgregory.net/rapid"
 )
 
+func init() { bundlekit.AllowCollide = true }
+
 func TestMain(m *testing.M)   { vh.Main(m) }
 func TestReplay(t *testing.T) { vh.Replay(t) }
 func TestCorpus(t *testing.T) { vh.Corpus(t) }
 
 type Case struct {
-	Spec   bundlekit.Spec `json:"spec"`
-	Cycles int            `json:"cycles"` // extra write/read cycles (history)
-	ReadMode int          `json:"read_mode,omitempty"`
+	Spec     bundlekit.Spec `json:"spec"`
+	Cycles   int            `json:"cycles"` // extra write/read cycles (history)
+	ReadMode int            `json:"read_mode,omitempty"`
 }
 
 func urlString(u *url.URL) string {
